@@ -74,7 +74,7 @@ are in range, non-empty, and sibling blocks never overlap or go backwards.  (The
 top-level loop the two coincide.) -/
 theorem loop_maps_staged (P : BState → Nat → Prop) (hP : FrameClosed P) (rules : List BRule) (hok : ∀ r ∈ rules, RuleOK P r)
     (hmap : ∀ r ∈ rules, MapOK P r) (maxNesting : Int) (endLine : Nat) :
-    ∀ (fuel line : Nat) (hasEmpty : Bool) (s s' : BState), s.lines.length = s.lineMax + 1 → endLine ≤ s.lineMax →
+    ∀ (fuel line : Nat) (hasEmpty : Bool) (s s' : BState), s.lineMax + 1 ≤ s.lines.length → endLine ≤ s.lineMax →
       P s endLine → blockLoop rules maxNesting endLine fuel line hasEmpty s = .ok s' →
       ∃ new, s'.tokens = s.tokens ++ new ∧ Staged line s.lineMax new := by
   intro fuel
@@ -127,11 +127,11 @@ theorem loop_maps_staged (P : BState → Nat → Prop) (hP : FrameClosed P) (rul
                     | true => rfl
                     | false => have := hmiss rfl; simp at this; omega
                   have hp := hprog hm
-                  have hlen2 : s2.lines.length = s2.lineMax + 1 := by rw [hfr2.1, hfr2.2.1]; exact hlen
+                  have hlen2 : s2.lineMax + 1 ≤ s2.lines.length := by rw [hfr2.1, hfr2.2.1]; exact hlen
                   have hend2 : endLine ≤ s2.lineMax := by rw [hfr2.2.1]; exact hend
                   have hstage := hmaps hm
                   -- all continuations recurse on a state with the same tokens as s2
-                  have fin : ∀ (l' : Nat) (he : Bool) (st : BState), st.tokens = s2.tokens → st.lines.length = st.lineMax + 1 →
+                  have fin : ∀ (l' : Nat) (he : Bool) (st : BState), st.tokens = s2.tokens → st.lineMax + 1 ≤ st.lines.length →
                       endLine ≤ st.lineMax → s2.FrameEq st → s2.line ≤ l' →
                       blockLoop rules maxNesting endLine n l' he st = .ok s' →
                       ∃ new, s'.tokens = s.tokens ++ new ∧ Staged line s.lineMax new := by
